@@ -143,7 +143,16 @@ func CaptureState(api *SimAPI) *CycleState {
 		if len(pg.Spec.SubGroups) == 0 {
 			g.Sets[""] = &RefPodSet{Name: "", Min: max(pg.Spec.MinMember, 1)}
 		}
+		isParent := map[string]bool{}
 		for _, sg := range pg.Spec.SubGroups {
+			if sg.Parent != nil {
+				isParent[*sg.Parent] = true
+			}
+		}
+		for _, sg := range pg.Spec.SubGroups {
+			if isParent[sg.Name] {
+				continue // a sub-group set (inner node of the hierarchy): it holds no pods itself
+			}
 			g.Sets[sg.Name] = &RefPodSet{Name: sg.Name, Min: sg.MinMember}
 		}
 		cs.Groups[pg.Name] = g
